@@ -30,10 +30,11 @@ def gateaux_oracle(t: T, pairs):
             table[ex.args[0]] = vr.data[key].args[0]
 
     def rule(name, k):
+        name, at, side = name.partition("@")  # a restricted symbol varies like the direction's symbol on that side
         m = re.match(r"^D((?:\d,?)+)\((.*)\)$", name)
         base = m.group(2) if m else name
         if base in table:
-            return sym.sym(f"D{m.group(1)}({table[base]})") if m else sym.sym(table[base])
+            return sym.sym((f"D{m.group(1)}({table[base]})" if m else table[base]) + at + side)
         return sym.ZERO
 
     d = Deriv((), sym_rule=rule)
@@ -61,6 +62,11 @@ def compose(ctx, rep):
         v = W.function("v", (), "Argument", number=0)
         v2 = W.function("v2", (), "Argument", number=1)
         vq = W.function("vq", (2,), "Argument", number=0)
+        # piecewise constant fields (constant over a cell, not across a facet) and a piecewise constant direction
+        u0 = W.function("u0", (), "Coefficient", number=5, degree=0)
+        c0 = W.function("c0", (), "Coefficient", number=6, degree=0)
+        c1 = W.function("c1", (), "Coefficient", number=7)
+        plus, minus = cm["PositiveRestricted"], cm["NegativeRestricted"]
         i = new_index()
         P, S, D = um.m_product, um.m_sum, um.m_division
         idx = lambda A, *k: um.m_indexed(A, MI(k))  # noqa: E731
@@ -78,6 +84,11 @@ def compose(ctx, rep):
             ("sqrt(1 + grad(w)[i]*grad(w)[i])", cm["Sqrt"](S(one, gg)), [(w, v)]),
             ("f*f   (independent of w)", P(f, f), [(w, v)]),
             ("div-like: grad(q)[i,i]*w  w.r.t. q", P(um.m_index_sum(idx(W.grad(q), i, i), MI((i,))), w), [(q, vq)]),
+            ("w('+')*w('-')*f('+')  (restricted)", P(P(plus(w), minus(w)), plus(f)), [(w, v)]),
+            ("(w('+') - w('-'))**2  direction a Coefficient", um.m_power(S(plus(w), P(um.m_scalar(-1), minus(w))), um.m_scalar(2)), [(w, c1)]),
+            ("(u0('+') - u0('-'))**2  piecewise constant field and direction", um.m_power(S(plus(u0), P(um.m_scalar(-1), minus(u0))), um.m_scalar(2)), [(u0, c0)]),
+            ("u0('+')**3 * f('-')  piecewise constant field and direction", P(um.m_power(plus(u0), three), minus(f)), [(u0, c0)]),
+            ("u0*u0*w  piecewise constant field, Argument direction", P(P(u0, u0), w), [(u0, v)]),
         ]
         return F, (w, v, v2)
 
